@@ -30,7 +30,7 @@ TInit == tid \in 1..NTraces /\ l = 2 /\ Init /\ xie = Traces[tid][1].exit
 
 TTick == /\ More /\ Ev.t > now /\ now' = Ev.t /\ Same
          /\ UNCHANGED << pc, xie, ready, queue, disposedF, thread, spawned, batch, waiting, deadline, notified, cancelled,
-                         due, enq, immH, cseq, stamp, picked, running, runTh, startT, handle, used, dispRet, late,
+                         due, enq, immH, effH, cseq, stamp, picked, running, runTh, startT, handle, used, dispRet, late,
                          early, refused, calls, item, cur >>
 
 DueEv == CASE Ev.op = "imm" -> now [] Ev.op = "rel" -> now + Ev.d [] Ev.op = "abs" -> Ev.d
